@@ -2,7 +2,12 @@
 
 package knxnet
 
-import "net"
+import (
+	"context"
+	"net"
+	"sync"
+	"time"
+)
 
 // Environment model used by the harnesses of package knx (DESIGN 2.6): the engine redirects
 // DialTunnelUDP/TCP, ListenRouterOnInterface and HostInfoFromAddress to these functions.
@@ -54,4 +59,43 @@ func verifHostInfoFromAddress(address net.Addr) (HostInfo, error) {
 	VerifHostInfoCalls++
 	VerifHostInfoArg = address
 	return VerifHostInfo, nil
+}
+
+// verifCtx models context.WithTimeout / WithCancel for the engine: Done is closed by a timer of
+// the virtual clock or by cancel, whichever comes first (parents are not propagated).
+type verifCtx struct {
+	done chan struct{}
+	mu   sync.Mutex
+	err  error
+}
+
+func (c *verifCtx) Deadline() (time.Time, bool)       { return time.Time{}, false }
+func (c *verifCtx) Done() <-chan struct{}             { return c.done }
+func (c *verifCtx) Value(key interface{}) interface{} { return nil }
+func (c *verifCtx) Err() error {
+	c.mu.Lock()
+	defer c.mu.Unlock()
+	return c.err
+}
+func (c *verifCtx) finish(err error) {
+	c.mu.Lock()
+	if c.err == nil {
+		c.err = err
+		close(c.done)
+	}
+	c.mu.Unlock()
+}
+
+func VerifContextWithTimeout(parent context.Context, d time.Duration) (context.Context, context.CancelFunc) {
+	c := &verifCtx{done: make(chan struct{})}
+	t := time.AfterFunc(d, func() { c.finish(context.DeadlineExceeded) })
+	return c, func() {
+		t.Stop()
+		c.finish(context.Canceled)
+	}
+}
+
+func VerifContextWithCancel(parent context.Context) (context.Context, context.CancelFunc) {
+	c := &verifCtx{done: make(chan struct{})}
+	return c, func() { c.finish(context.Canceled) }
 }
